@@ -27,8 +27,8 @@ def _world(m, kind, w, h, d, wrap):
         env = SpaceWorld(m, w, h, d, wrap_env=wrap)
     else:
         env = _REAL[kind]
-        env.agents = {}
-        env.components = {}
+        env.agents.clear()
+        env.components.clear()
         env.set_model(m)
         env.wrap_env = wrap
     m.environment = env
